@@ -202,6 +202,7 @@ func init() {
 			// the record dispatcher from an arbitrary reference-timestamp state (shared with C13)
 			js = append(js, job("fit", "H13", "defkind", 0), job("fit", "H13b"))
 			js = append(js, job("fit", "H16c"), job("fit", "H16d"), job("fit", "H13e"), job("fit", "H02d"))
+			js = append(js, job("fit", "H12d", "big", 0), job("fit", "H12d", "big", 1)) // local time against an arbitrary reference
 			// streams at the size limits of the format (file_id record beyond the 4096-byte buffer, 90-field definition, 5 x 255 developer bytes)
 			for _, extra := range []int{0, 17} {
 				for _, chunk := range []int{0, 7} {
@@ -382,9 +383,12 @@ func init() {
 				}
 			}
 			js = append(js, job("fit", "H13e"))
+			for _, ab := range [][2]int{{0, 1}, {1, 0}, {3, 12}, {15, 7}} {
+				js = append(js, job("fit", "H13f", "a", ab[0], "b", ab[1]))
+			}
 			return js
 		},
-		MustReach: []string{"C13.def.replaces-its-slot", "C13.def.other-slots-untouched", "C13.data.undefined-slot-is-error", "C13.data.consumed-by-selected-slot", "C13.data.routed-by-selected-slot", "C13.data.definitions-never-written", "C13.dev.records-read-with-their-own-definition", "C13.dev.first-slot-descriptors-kept", "C13.redef.consumed-by-latest-definition", "C13.redef.slot-holds-exactly-the-latest-definition", "C13.chain.definitions-do-not-survive-into-the-next-file", "C13.first.undefined-slot-is-error"},
+		MustReach: []string{"C13.def.replaces-its-slot", "C13.def.other-slots-untouched", "C13.data.undefined-slot-is-error", "C13.data.consumed-by-selected-slot", "C13.data.routed-by-selected-slot", "C13.data.definitions-never-written", "C13.dev.records-read-with-their-own-definition", "C13.dev.first-slot-descriptors-kept", "C13.redef.consumed-by-latest-definition", "C13.redef.slot-holds-exactly-the-latest-definition", "C13.chain.definitions-do-not-survive-into-the-next-file", "C13.first.undefined-slot-is-error", "C13.order.each-record-read-in-its-own-definitions-byte-order"},
 		Bounds: map[string]interface{}{
 			"quick":    "one record (all 256 header bytes, arbitrary record bytes) through the real decodeFileData loop from a state where all 16 slots hold pairwise distinguishable definitions (different message, record length 2..17, alternating byte order) except at most one nil slot (17 choices); definition records carry one of three bodies (with/without one developer field): a different message, the slot's own layout with the opposite byte order, or the slot's definition verbatim; plus (H13b) two developer-field definitions for two local types (every slot and its two neighbours by bit flip, developer field sizes 1-4, both orders) followed by records of both; plus (H13c) every slot redefined with 0..2 fields of 1..3 bytes, either byte order, with/without 0..2 developer fields of 1..3 bytes, followed by a record of that slot and one of the next slot (arbitrary bytes); plus (H13d) a chain of two files where the second uses a local type (1..15, also through compressed headers for 1..3) only the first defines",
 			"thorough": "same",
@@ -472,6 +476,7 @@ func encJobs(tier string, meta map[string]int) []Job {
 		for big := 0; big <= 1; big++ {
 			add(ti, gmn, -1, -1, 0, big, 1-big) // every field set
 		}
+		add(ti, gmn, -2, -1, 0, gmn%2, ti%2) // no field set: the message as its constructor returns it
 		// the same after an Encode that failed part-way
 		js = append(js, job("fit", "H05", "ti", ti, "gmn", gmn, "fi", -1, "fj", -1, "two", 0, "big", gmn%2, "crc", 1, "symoff", symoff, "hist", 1))
 	}
@@ -848,7 +853,7 @@ func init() {
 			return js
 		},
 		MustReach:      []string{"C09.no-shared-object-is-written", "C09.same-result-as-alone", "C09.race-free"},
-		NoNativeReplay: map[string]bool{"C09.no-shared-object-is-written": true, "C09.pooled-object-used-after-put": true},
+		NoNativeReplay: map[string]bool{"C09.no-shared-object-is-written": true, "C09.pooled-object-used-after-put": true, "C09.object-written-by-both-calls": true},
 		RaceID:         "C09.race-free",
 		Explanation:    "The engine has no thread interleavings. The claim is reduced to a non-interference premise that is decidable here: (P) within the stated bounds no decoding/encoding entry point writes an object that exists before the call (package-level variables and everything package initialisation allocated), decided by symbolic execution with write provenance over all stream contents of the model. (P) implies that any interleaving of calls on independent readers, writers and Files is race-free and returns what each call returns alone (disjoint-state argument, stated not machine-checked; standard-library internals are assumed goroutine-safe as documented). Every path's model is additionally replayed natively with the two calls in separate goroutines under the Go race detector; where (P) fails (the package-level accumulators) the native replay must show a detector report before the finding is printed.",
 		Bounds: map[string]interface{}{
